@@ -345,6 +345,15 @@ func drvMacCmd(c *ctx) error {
 		cmdTypeEvents(c)
 		for i := 0; i < c.n; i++ {
 			k := cmdKeys[i%len(cmdKeys)]
+			if i%8 == 0 { // failing calls in between: a too short payload, a garbage stream
+				observeFast(func() error {
+					p := cmdTab[k].mk()
+					p.UnmarshalBinary(c.bytesN(c.rnd.Intn(cmdTab[k].size + 1))[:c.rnd.Intn(cmdTab[k].size+1)/2])
+					var mc lorawan.MACCommand
+					mc.UnmarshalBinary(c.rnd.Intn(2) == 0, c.bytesN(c.rnd.Intn(4)))
+					return nil
+				})
+			}
 			c.emit(encEvent(k, c.genCmdVal(k, c.rnd.Intn(3) == 0)))
 		}
 	case "cases": // (R): values enumerated by TLC from the specification's tables
